@@ -1,6 +1,22 @@
 import WhVerif.Util.Proto
+import WhVerif.Model.C16
 namespace WhVerif.Driver.C16
-open Lean WhVerif.Proto
-/-- ops of property C16 are named `c16.<name>`; return `none` for ops that are not ours -/
-def handle (_op : String) (_j : Json) : Option Json := none
+open Lean WhVerif.Proto WhVerif.C16
+
+/-- a read `[hasVariants(0/1), firstPos, nameHash, [name code units], sourceId]` -/
+def parseRead (j : Json) : Option ReadKey := do
+  match ← asArr? j with
+  | [hv, fp, h, nm, sid] =>
+    some ⟨(← asNat? hv) != 0, ← asNat? fp, ← asNat? h, ← natList? nm, ← asInt? sid⟩
+  | _ => none
+
+/-- ops of property C16 are named `c16.<name>` -/
+def handle (op : String) (j : Json) : Option Json :=
+  if op == "c16.sort" then
+    match (getList? j "reads").bind (·.mapM parseRead) with
+    | some rs =>
+      let sorted := sortReads (rs.map (fun r => (r, ())))
+      some (Json.arr (sorted.map (fun r => Json.arr #[ofNatList r.1.name, ofInt r.1.sourceId])).toArray)
+    | none => some badInput
+  else none
 end WhVerif.Driver.C16
